@@ -154,8 +154,9 @@ class Engine:
         ob = Obligation(oid, kind, g, claim, pos, fn, len(self.assumptions))
         self.obligations.append(ob)
         if narrow and kind != "assert":
-            self.guard = And(g, claim)
-            self.narrows += 1
+            # assert-then-assume: the path continues only where the check passed. Recorded as an
+            # assumption (not by narrowing the guard) so that later stores stay unconditional.
+            self.assume(claim, "")
 
     def str_const(self, s):
         t = self.strs.get(s)
@@ -615,8 +616,10 @@ class Engine:
                 if is_false(self.guard):
                     return
                 self.exec_instr(frame, b, ins)
-        except DeadPath:
+        except DeadPath as e:
             self.narrows += 1
+            if self.trace:
+                print("    dead path in %s block %d: %s\n%s" % (fn.name, b, e.why, e.tb), flush=True)
             return
 
     def exec_instr(self, frame, b, ins):
@@ -1087,7 +1090,7 @@ class Engine:
                 raise Inconclusive("elem_ptr into %r" % (arr,))
         alts = [(c, t) for c, t in alts if not is_false(c)]
         if not alts:
-            raise DeadPath()
+            raise DeadPath("elem_ptr idx=%s base=%s" % (idx, base))
         return Ptr(alts)
 
     def op_Index(self, frame, b, ins):
@@ -1706,4 +1709,7 @@ class Engine:
 
 
 class DeadPath(Exception):
-    pass
+    def __init__(self, why=""):
+        import traceback
+        self.why = why
+        self.tb = "".join(traceback.format_stack(limit=6))
